@@ -18,9 +18,11 @@ RULE = ("Destination and source trees of equal depth 1-3 over a common shape (de
         "afterwards content(z) = content_before overridden by the writes; nothing the loop created remains where the "
         "final value is the default; elements of z outside a are the same objects with the same snapshot; a (and "
         "its rank lists) unchanged; z well-formed and rank-consistent at every yield and after the loop. "
-        "Non-trivial: >=1 created-then-removed coordinate and >=1 retained write in one loop on a non-empty "
+        "Part lazy-source: one-level z << (a & b | a | b | a ^ b | a - b | a.project(shift)) with the same body "
+        "plans and the same oracle on z (offered coordinates = the set operation over what a and b present with "
+        "THEIR default). Non-trivial: >=1 created-then-removed coordinate and >=1 retained write in one loop on a non-empty "
         "destination. Distinct = SHA-1 of the case.")
-ASSUMPTIONS = ["source and destination share depth, shape and leaf default (the kernel idiom)",
+ASSUMPTIONS = ["source and destination share depth and shape (the kernel idiom); their leaf defaults may differ",
                "start_pos is legal: the first source coordinate lies above z.coords[start_pos-1]"]
 
 
@@ -30,10 +32,13 @@ def cases(draw):
     shape = [draw(st.integers(1, 6)) for _ in range(d)]
     default = draw(st.sampled_from([0, 0, 0, 2]))
     z = draw(gen.tree_specs(shape=shape, defaults=(default,), max_elems=5))
-    a = draw(gen.tree_specs(shape=shape, defaults=(default,), max_elems=5))
+    # (now and then the source has another leaf default than the destination, as a lazy source has: what the
+    # source presents follows ITS default, what stays in z follows z's)
+    adefault = draw(st.sampled_from([default, default, default, 5, 0]))
+    a = draw(gen.tree_specs(shape=shape, defaults=(adefault,), max_elems=5))
     zhow = ["ref", "fiber", "uncompressed", "yaml", "deepcopy"] + (["unowned", "unowned"] if d <= 2 else [])
     return {"z": z, "a": a, "zhow": draw(st.sampled_from(zhow)),
-            "ahow": draw(st.sampled_from(["ref", "fiber", "unowned", "U"])),
+            "ahow": draw(st.sampled_from(["ref", "fiber", "unowned", "U", "unowned-U"])),
             "plan": list(draw(st.permutations(["leave", "assign", "assign", "acc", "default", "writethendefault"])))[
                 :draw(st.integers(1, 6))],
             "descend": draw(st.lists(st.sampled_from(["descend", "descend", "descend", "skip", "reserve"]),
@@ -55,14 +60,17 @@ def check(case, rec):
     d, default, shape = model.depth(zs), zs["default"], zs["shape"]
     m = machine.Machine(zs, case["zhow"])
     z = m.root
-    if case["ahow"] == "unowned":
+    adefault = as_["default"]
+    if case["ahow"] in ("unowned", "unowned-U"):
         a_t, a = None, build.build_fiber(as_, name_ranks=True)
+        if case["ahow"] == "unowned-U":
+            a.getRankAttrs().setFormat("U")          # an unowned fiber declares its format itself
     else:
         a_t = build.build_tensor(as_, "ref" if case["ahow"] == "U" else case["ahow"])
         if case["ahow"] == "U":
             a_t.setFormat(as_["rank_ids"][0], "U")
         a = a_t.getRoot()
-    afmt = "U" if case["ahow"] == "U" else "C"
+    afmt = "U" if case["ahow"] in ("U", "unowned-U") else "C"
     plan = machine.Plan(case["plan"], case["descend"], case["val"], default)
     plan.shape = list(shape)
 
@@ -82,7 +90,7 @@ def check(case, rec):
 
     def walk(ztree, atree, lvl, prefix, fmt):
         zmap = {c: ch for c, ch in ztree}
-        for c, ach in presented(atree, d - lvl, default, fmt, shape[lvl]):
+        for c, ach in presented(atree, d - lvl, adefault, fmt, shape[lvl]):
             pt = prefix + (c,)
             expected_offers.append((pt, lvl))
             if lvl == d - 1:
@@ -141,7 +149,7 @@ def check(case, rec):
     stats = {"offered": 0, "written": 0, "removed": 0}
     sp = None
     if d == 1 and case["sp"] is not None and z.coords:
-        first = next((c for c, _ in presented(as_["tree"], 1, default, afmt, shape[0])), None)
+        first = next((c for c, _ in presented(as_["tree"], 1, adefault, afmt, shape[0])), None)
         if first is not None:
             legal = [p for p in range(len(z.coords) + 1) if p == 0 or first > z.coords[p - 1]]
             sp = legal[case["sp"] % len(legal)]
@@ -235,6 +243,8 @@ def check(case, rec):
     first = expected_offers[0][0][0] if expected_offers else None
     rec.cls("inserting", zmax is not None and first is not None and first < zmax)
     rec.cls("source-U", afmt == "U")
+    rec.cls("source-unowned-U", case["ahow"] == "unowned-U")
+    rec.cls("source-default-differs", adefault != default)
     rec.cls("z-owned" if m.owned else "z-unowned")
     rec.cls(f"depth{d}")
     rec.cls("created-removed", created_removed[0] > 0)
@@ -252,11 +262,120 @@ def machine_stored(root, pt):
     return f
 
 
-PARTS = [Part("populate", cases(), check, n_quick=4000, n_thorough=30000)]
+# ---------------------------------------------------------------- lazy sources (z << (a & b), z << (a | b) ...)
+LAZY = ["and", "or", "xor", "sub", "project", "and", "or"]
+
+
+@st.composite
+def lazy_cases(draw):
+    n = draw(st.integers(1, 6))
+    default = draw(st.sampled_from([0, 0, 0, 2]))
+    sdefault = draw(st.sampled_from([default, default, 0, 5]))
+    return {"op": draw(st.sampled_from(LAZY)), "shift": draw(st.integers(0, 2)),
+            "z": draw(gen.tree_specs(shape=[n + 2], defaults=(default,), max_elems=5)),
+            "a": draw(gen.tree_specs(shape=[n], defaults=(sdefault,), max_elems=5)),
+            "b": draw(gen.tree_specs(shape=[n], defaults=(sdefault,), max_elems=5)),
+            "zhow": draw(st.sampled_from(["ref", "fiber", "uncompressed", "unowned", "unowned"])),
+            "owned": draw(st.booleans()),
+            "plan": list(draw(st.permutations(["leave", "assign", "assign", "acc", "default", "writethendefault"])))[
+                :draw(st.integers(1, 6))],
+            "val": draw(gen.nondefault_values(default))}
+
+
+def check_lazy(case, rec):
+    zs = case["z"]
+    default, sdefault = zs["default"], case["a"]["default"]
+    m = machine.Machine(zs, case["zhow"])
+    z = m.root
+    srcs = []
+    for key in ("a", "b"):
+        if case["owned"]:
+            t = build.build_tensor(case[key], "ref")
+            srcs.append((t.getRoot(), t))
+        else:
+            srcs.append((build.build_fiber(case[key], name_ranks=True), None))
+    (a, a_t), (b, b_t) = srcs
+    A = [c for c, v in case["a"]["tree"] if v != sdefault]
+    B = [c for c, v in case["b"]["tree"] if v != sdefault]
+    op, k = case["op"], case["shift"]
+    if op == "and":
+        src, want_c = a & b, [c for c in A if c in B]
+    elif op == "or":
+        src, want_c = a | b, sorted(set(A) | set(B))
+    elif op == "xor":
+        src, want_c = a ^ b, sorted(set(A) ^ set(B))
+    elif op == "sub":
+        src, want_c = a - b, [c for c in A if c not in B]
+    else:
+        src, want_c = a.project(lambda c: c + k), [c + k for c in A]
+    plan = machine.Plan(case["plan"], ["descend"], case["val"], default)
+    snaps = [(observe.snap(f), observe.rank_lists(t) if t else None) for f, t in srcs]
+    z_before = observe.tree_of(z)
+    z_objs = {c: p for c, p in zip(z.coords, z.payloads)}
+    z_snaps = {c: observe.snap(p) for c, p in zip(z.coords, z.payloads)}
+    cont = observe.content_of(z, 1, default)
+    offered, want = [], dict(cont)
+    created_removed = retained = 0
+    for c, (z_ref, _) in z << src:
+        offered.append(c)
+        cur = want.get((c,), default)
+        if not isinstance(z_ref, Payload) or isinstance(z_ref.value, (Payload, Fiber)) or z_ref.value != cur:
+            raise Violation("ref-value", f"z << ({op}): reference offered at {c} shows {z_ref!r}, z holds {cur}")
+        if machine_stored(z, (c,)) is not z_ref:
+            raise Violation("ref-alias", f"z << ({op}): reference offered at {c} is not the payload stored in z there")
+        observe.wellformed(z, 1, f"at yield {c}")
+        act, v = plan.action((c,)), plan.value((c,))
+        if act == "assign":
+            z_ref <<= v
+        elif act == "acc":
+            z_ref += v
+        elif act == "default":
+            z_ref <<= default
+        elif act == "writethendefault":
+            z_ref <<= v
+            z_ref <<= default
+        new = {"leave": cur, "assign": v, "acc": cur + v, "default": default, "writethendefault": default}[act]
+        if new == default:
+            want.pop((c,), None)
+            created_removed += (c,) not in cont
+        else:
+            want[(c,)] = new
+            retained += act in ("assign", "acc")
+    if offered != want_c:
+        raise Violation("offered", f"z << (a {op} b): loop bodies ran at {offered}, the source presents {want_c}; "
+                        f"a={case['a']['tree']} b={case['b']['tree']} (default {sdefault}) shift={k}")
+    got = observe.content_of(z, 1, default)
+    if got != want:
+        raise Violation("content", f"z << (a {op} b): z holds {got}, expected {want}; z before {z_before}")
+    observe.wellformed(z, 1, "after the loop")
+    if m.owned:
+        observe.rank_consistency(m.t, "after the loop")
+    for c in offered:
+        so = machine_stored(z, (c,))
+        if so is not None and Payload.get(so) == default:
+            kind = "explicit-default-left" if c in z_objs else "leftover"
+            raise Violation(kind, f"z << (a {op} b): the body left {c} at the default but an element holding the default "
+                            f"is stored there after the loop (z before: {z_before}, source default {sdefault})")
+    for c, p in z_objs.items():
+        if c in offered:
+            continue
+        if c not in z.coords or z.payloads[z.coords.index(c)] is not p or observe.snap(p) != z_snaps[c]:
+            raise Violation("untouched", f"z << (a {op} b): element {c} of z (not offered) was removed, replaced or changed")
+    for (f, t), (sn, rl) in zip(srcs, snaps):
+        if observe.snap(f) != sn or (t is not None and observe.rank_lists(t) != rl):
+            raise Violation("source-modified", f"z << (a {op} b) changed an operand of the source")
+    rec.cls("lazy-" + op)
+    rec.cls("source-default-differs", sdefault != default)
+    rec.cls("created-removed", created_removed > 0)
+    rec.nontrivial(created_removed > 0 and retained > 0 and bool(cont))
+
+
+PARTS = [Part("populate", cases(), check, n_quick=4000, n_thorough=30000),
+         Part("lazy-source", lazy_cases(), check_lazy, n_quick=1500, n_thorough=8000)]
 
 
 def coverage_warnings(rec):
-    n = max(1, rec.evaluations)
+    n = max(1, sum(v for k, v in rec.classes.items() if k.startswith("populate:depth")))
     out = []
     for k, floor in (("populate:inserting", 0.2), ("populate:created-removed", 0.15)):
         if rec.classes.get(k, 0) / n < floor:
